@@ -167,6 +167,10 @@ func ruleMergingScope(c *Ctx) {
 							if _, isB := x.Common().Value.(*ssa.Builtin); isB {
 								continue
 							}
+							// a helper whose only effect is the valid-key counter
+							if onlyWritesValidKeyCount(c, x) {
+								continue
+							}
 							if offender == nil {
 								offender = in
 							}
@@ -368,4 +372,35 @@ func ruleCommitSetAlways(c *Ctx) {
 	})
 	c.Sites += n
 	c.minInstances("commit-time registrations in DB.committedTxIds", n, 1)
+}
+
+// onlyWritesValidKeyCount: every callee of the call is a module function whose transitive effect summary writes
+// nothing but BPTree.ValidKeyCount (and fresh objects) and touches no file.
+func onlyWritesValidKeyCount(c *Ctx, ci ssa.CallInstruction) bool {
+	fx := getEffects(c)
+	cals := c.P.Callees(ci)
+	if len(cals) == 0 {
+		return false
+	}
+	for _, cal := range cals {
+		if !c.P.inModule(cal) || cal.Blocks == nil {
+			return false
+		}
+		sm := fx.sum[cal]
+		if sm == nil {
+			return false
+		}
+		for _, ev := range sm.writes {
+			if ev.Root == "F" {
+				continue
+			}
+			if ev.Loc != "BPTree.ValidKeyCount" {
+				return false
+			}
+		}
+		if len(fsSitesIn(c.P, cal)) > 0 {
+			return false
+		}
+	}
+	return true
 }
